@@ -401,11 +401,93 @@ static int single_devs(int pi, devi_t *out, int max)
     return n;
 }
 
+/* ------------------------------------------------ application phase: anti-replay window scripts (ndev == -1)
+ * After an undisturbed handshake one side sends 48 one-record datagrams; script (dir, gap, extra): deliver #0..#2, skip
+ * gap datagrams (a burst loss), deliver #(3+gap) and replay it at once, replay #2 and #extra, then deliver the skipped
+ * ones late (reordering) and finally replay every datagram once more.  Each datagram may reach the application at most once. */
+#define NWIN 48
+static void run_window(int pi, int dir, int gap, int extra, mx_result_t *r)
+{
+    const pcfg_t *pc = &pcfgs[pi];
+    static world_t w;
+    wcfg_t c;
+    static unsigned char *wrec[NWIN];
+    static int wlen[NWIN];
+    uint64_t whash[NWIN];
+    int cnt[NWIN], k, i, d, recv = 1 - dir, jump = 3 + gap;
+    const char *sym = NULL;
+    side_t *rs;
+    memset(&c, 0, sizeof(c));
+    c.ver = pc->ver; c.kx = pc->kx; c.suite = pc->suite; c.pmtu = pc->pmtu;
+    r->nontrivial = 1;
+    if (world_init(&w, &c) < 0 || world_handshake(&w) != 0)
+    {
+        r->violation = 2;
+        snprintf(r->key, sizeof(r->key), "window-setup-failed|%s", pc->name);
+        snprintf(r->what, sizeof(r->what), "undisturbed handshake for the window scenario failed");
+        return;
+    }
+    world_pump(&w, 50);
+    for (k = 0; k < NWIN; k++)
+    {
+        unsigned char msg[24];
+        rec_t u;
+        memset(msg, 0x40 + k, sizeof(msg));
+        msg[0] = (unsigned char) k; msg[1] = (unsigned char) pi; msg[2] = (unsigned char) dir;
+        whash[k] = fnv1a(msg, 24, FNV0);
+        if (world_app_send(&w, dir, msg, 24) <= 0)
+        {
+            r->violation = 2;
+            snprintf(r->key, sizeof(r->key), "window-setup-failed|%s", pc->name);
+            snprintf(r->what, sizeof(r->what), "application datagram %d could not be sent", k);
+            return;
+        }
+        u = world_wire_pop(&w, dir);
+        wrec[k] = u.p; wlen[k] = u.len;
+    }
+    rs = &w.s[recv];
+#define FEED(x) do { if ((x) >= 0 && (x) < NWIN && wrec[x]) { world_feed(&w, recv, wrec[x], wlen[x]); r->transitions++; } } while (0)
+    for (i = 0; i < 3; i++) FEED(i);
+    if (jump < NWIN) { FEED(jump); FEED(jump); }
+    FEED(2);
+    FEED(extra);
+    for (i = 3; i < NWIN; i++) if (i != jump) FEED(i);
+    for (i = 0; i < NWIN; i++) FEED(i);
+#undef FEED
+    memset(cnt, 0, sizeof(cnt));
+    for (d = 0; d < rs->n_deliveries && d < 64 && !sym; d++)
+    {
+        for (i = 0; i < NWIN; i++)
+        {
+            if (rs->dlog[d].hash == whash[i] && rs->dlog[d].len == 24) { cnt[i]++; break; }
+        }
+        if (i == NWIN) sym = "delivered-datagram-never-sent";
+    }
+    if (rs->n_deliveries > 64 && !sym) sym = "application-datagram-delivered-twice";
+    for (i = 0; i < NWIN && !sym; i++) if (cnt[i] > 1) sym = "application-datagram-delivered-twice";
+    snprintf(r->outcome, sizeof(r->outcome), "%s:window:gap%d:%s", pc->name, gap, sym ? sym : (rs->n_deliveries == NWIN ? "all-delivered-once" : "some-discarded"));
+    r->trace_hash = world_trace_hash(&w);
+    if (sym)
+    {
+        r->violation = 1;
+        snprintf(r->key, sizeof(r->key), "%s|window-jump+replay|%s|%s", pc->name, dir ? "server-sends" : "client-sends", sym);
+        snprintf(r->what, sizeof(r->what), "%s, %s sends 48 datagrams: deliver #0-2, lose %d, deliver #%d and replay it, replay #2 and #%d, late delivery of the rest, replay of all => %s (%d deliveries)",
+            pc->name, dir ? "server" : "client", gap, jump, extra, sym, rs->n_deliveries);
+    }
+    for (k = 0; k < NWIN; k++) { free(wrec[k]); wrec[k] = NULL; }
+    world_free(&w);
+}
+
 static void run_case(void *ctx, mx_result_t *r)
 {
     case_t *c = ctx;
     static run_t R;
     int valid;
+    if (c->ndev == -1)
+    {
+        run_window(c->pi, c->d[0].step, c->d[0].kind, c->d[0].a, r);
+        return;
+    }
     run_schedule(c->pi, c->d, c->ndev, &R, &valid);
     if (!valid)
     {
@@ -433,6 +515,13 @@ static void run_group(long gi, void *unused)
         {
             return;
         }
+        if (c->ndev == -1)
+        {
+            snprintf(desc, sizeof(desc), "p=%d;n=-1;d0=%d.%d.%d;d1=0.0.0 (%s: window script, %s sends, gap %d, extra replay #%d)", c->pi, c->d[0].step, c->d[0].kind, c->d[0].a,
+                pcfgs[c->pi].name, c->d[0].step ? "server" : "client", c->d[0].kind, c->d[0].a);
+            mx_fork_case(desc, run_case, c);
+            continue;
+        }
         snprintf(desc, sizeof(desc), "p=%d;n=%d;d0=%d.%d.%d;d1=%d.%d.%d (%s: %s@step%d/%d%s%s)", c->pi, c->ndev, c->d[0].step, c->d[0].kind, c->d[0].a,
             c->d[1].step, c->d[1].kind, c->d[1].a, pcfgs[c->pi].name, c->ndev ? dname[c->d[0].kind] : "none", c->d[0].step, c->d[0].a,
             c->ndev > 1 ? " then " : "", c->ndev > 1 ? dname[c->d[1].kind] : "");
@@ -454,6 +543,7 @@ int main(int argc, char **argv)
     cfg.engine = "deviation-bounded schedule enumeration: each schedule re-executed from scratch on real DTLS sessions (forked child), explicit timer action";
     cfg.rule = "case = (configuration, schedule with <= k deviations from in-order lossless delivery); deviation menu at every delivery step: drop, duplicate, deliver 2nd/3rd in-flight datagram first, "
                "fire client/server retransmission timer, replay any datagram stored so far; each run continues with default delivery + timeout rounds to a horizon of 8 idle rounds, then 3 application datagrams; "
+               "application phase: 48-datagram anti-replay window scripts in both directions (burst loss of g in {0,1,2,15,29..34,40,44} datagrams, replay of the first datagram after the gap, of an older one and of a third, late delivery of the lost ones, replay of everything); "
                "non-trivial = schedule with >= 1 applicable deviation";
     cfg.assumptions[0] = "entropy and clock pinned; a retransmission timer exists only for a side that has sent a flight (an idle server is never polled)";
     cfg.assumptions[1] = "liveness is judged within the horizon only; application datagrams dropped by the schedule itself are not expected to arrive";
@@ -475,6 +565,12 @@ int main(int argc, char **argv)
         }
         memset(&r, 0, sizeof(r));
         snprintf(r.desc, sizeof(r.desc), "%s", replay);
+        if (c.ndev == -1)
+        {
+            run_window(c.pi, c.d[0].step, c.d[0].kind, c.d[0].a, &r);
+            mx_replay_print(&r);
+            return 0;
+        }
         run_schedule(c.pi, c.d, c.ndev, &R, &valid);
         if (valid)
         {
@@ -514,6 +610,23 @@ int main(int argc, char **argv)
             {
                 devi_t a = { base_steps[pi], D_REPLAY, i }, b = { base_steps[pi] + 1, D_REPLAY, j };
                 add_case(pi, 2, a, b);
+            }
+        }
+        /* application phase: anti-replay window scripts, both directions */
+        if (pcfgs[pi].pmtu == 0)
+        {
+            static const int gaps[] = { 0, 1, 2, 15, 29, 30, 31, 32, 33, 34, 40, 44 };
+            int gi, ex, dir;
+            for (dir = 0; dir < 2; dir++)
+            {
+                for (gi = 0; gi < (int) (sizeof(gaps) / sizeof(gaps[0])); gi++)
+                {
+                    for (ex = 0; ex < NWIN; ex += (thorough ? 1 : 6))
+                    {
+                        devi_t a = { dir, gaps[gi], ex };
+                        add_case(pi, -1, a, none);
+                    }
+                }
             }
         }
         if (thorough && pcfgs[pi].kx == KX_PSK)
